@@ -6,6 +6,7 @@ import (
 	"github.com/resgateio/resgate/server/codec"
 	"github.com/resgateio/resgate/server/mq"
 	"github.com/resgateio/resgate/server/reserr"
+	"github.com/resgateio/resgate/server/verifhook"
 )
 
 // ResourceType is an enum representing a resource type
@@ -135,6 +136,7 @@ func (e *EventSubscription) Enqueue(f func()) {
 	count := len(e.queue)
 	locks := e.locks
 	e.queue = append(e.queue, f)
+	verifhook.Note("esq", e.ResourceName)
 	e.mu.Unlock()
 
 	// If the queue is empty, there are no worker currently
@@ -152,6 +154,7 @@ func (e *EventSubscription) enqueueUnlock(f func()) {
 	e.mu.Lock()
 	count := len(e.locks)
 	e.locks = append(e.locks, f)
+	verifhook.Note("esl", e.ResourceName)
 	e.mu.Unlock()
 
 	if count == 0 {
@@ -176,9 +179,15 @@ func (e *EventSubscription) processQueue() {
 
 	if e.locks != nil {
 		for len(e.locks) > idx {
+			if verifhook.Enabled {
+				e.mu.Unlock()
+				verifhook.Gate("es", e.ResourceName)
+				e.mu.Lock()
+			}
 			f = e.locks[idx]
 			idx++
 			f()
+			verifhook.Done("esl", e.ResourceName)
 		}
 
 		e.locks = e.locks[idx:]
@@ -195,9 +204,19 @@ func (e *EventSubscription) processQueue() {
 	}
 
 	for len(e.queue) > idx {
+		if verifhook.Enabled {
+			e.mu.Unlock()
+			verifhook.Gate("es", e.ResourceName)
+			e.mu.Lock()
+			if !(len(e.queue) > idx) {
+				verifhook.Done("es-empty", e.ResourceName)
+				break
+			}
+		}
 		f = e.queue[idx]
 		idx++
 		f()
+		verifhook.Done("esq", e.ResourceName)
 		if e.locks != nil {
 			copy(e.queue, e.queue[idx:])
 			e.queue = e.queue[:len(e.queue)-idx]
@@ -288,6 +307,10 @@ func (e *EventSubscription) handleQueryEvent(subj string, payload []byte) {
 	for q, rs := range e.queries {
 		// Do not include queries still being requested
 		if rs.state <= stateRequested {
+			if verifhook.Enabled {
+				verifhook.Go("queryunlock:"+e.ResourceName, func() { e.enqueueUnlock(func() {}) })
+				continue
+			}
 			go e.enqueueUnlock(func() {})
 			continue
 		}
